@@ -91,6 +91,29 @@ def run(ctx):
         ctx.require(not writes, 'C04-R2', '%s:no-write' % mode, 'no statement writes or mutably borrows %sPerformanceCalculator.attrs' % CAP[mode], f.where(),
                     bad='%sPerformanceCalculator.attrs is written / mutably borrowed in %s' % (CAP[mode], sorted({w['fn'].path for w in writes})))
     ctx.floor('C04-R2', n2, 4, 'performance calculators')
+    # the builder hands the attributes to its calculator untouched
+    for mode in MODES:
+        f = F.method(perf(mode), 'calculate', inherent_only=True)
+        if f is None:
+            continue
+        P = prov.prov_of(f)
+        ctors = [(bi, t) for bi, t in f.calls() if t['func'].get('name') == 'new' and 'PerformanceCalculator' in (t['func'].get('impl_adt') or '')]
+        for bi, t in ctors:
+            a = P.call_args(bi)[0]
+            bad = []
+            for alt in (a[1] if a[0] == 'phi' else [a]):
+                for n in prov.walk(alt, limit=400):
+                    if n[0] == 'update':
+                        bad.append('field(s) %s are overwritten before the calculator is built' % sorted('.'.join(p_) for p_ in n[2]))
+                    elif n[0] == 'mut':
+                        vias = {v[1].get('name') for v in n[2] if v[0] == 'callref'}
+                        if not vias <= {'generate_state', 'insert_attrs', 'deref', 'deref_mut', 'as_ref', 'borrow'}:
+                            bad.append('mutably borrowed by %s' % sorted(x for x in vias if x))
+                    elif n[0] in ('binop',):
+                        bad.append('arithmetic on the attributes')
+            ctx.require(not bad, 'C04-R2', '%s:handover' % mode, '%sPerformance::calculate passes the attributes (stored or freshly computed) to its calculator untouched' % CAP[mode],
+                        f.where(t['ln']), bad='%sPerformance::calculate alters the difficulty attributes before handing them to the calculator (%s): the attributes '
+                                                'embedded in the result no longer equal the one-shot difficulty calculation' % (CAP[mode], '; '.join(sorted(set(bad)))))
     # ---- R3
     n3 = 0
     for fn in F.fns:
